@@ -18,6 +18,7 @@ import PqlModel.Props.C02ProgramNames
 import PqlModel.Props.C02SplitIR
 import PqlModel.Props.C03JoinCondIR
 import PqlModel.Props.C07OperatorIRTerm
+import PqlModel.Props.IRHeadlinesA
 #print axioms Pql.C02.C02_canAttachSort_table
 #print axioms Pql.C02.C02_top_eq_sort_take
 #print axioms Pql.C02.C02_spec_top
@@ -113,3 +114,13 @@ import PqlModel.Props.C07OperatorIRTerm
 #print axioms Pql.SplitIR.run_ops
 #print axioms Pql.SplitIR.exec_joinTail
 #print axioms Pql.SplitIR.exec_joinHead
+#print axioms Pql.IRHead.C02_end_to_end_bytes_raw_ir
+#print axioms Pql.IRHead.C02_end_to_end_bytes_detail_ir
+#print axioms Pql.IRHead.C02_end_to_end_program_bytes_ir
+#print axioms Pql.IRHead.C02_end_to_end_program_names_bytes_ir
+#print axioms Pql.IRHead.C02_end_to_end_program_run_ir
+#print axioms Pql.IRHead.C02_end_to_end_program_run_ir_nonvacuous
+#print axioms Pql.IRHead.C02_split_invariants_ir
+#print axioms Pql.IRHead.C02_split_invariants_parsed_ir
+#print axioms Pql.IRHead.C02_split_invariants_ir_nonvacuous
+#print axioms Pql.IRHead.C02_on_translated_code
